@@ -123,7 +123,18 @@ def _handmade():
             c[2:] = mo.coeffs[1:]
             h3.mo = MolecularOrbitals(mo.kind, mo.norba, mo.norbb, mo.occs.copy(), c, mo.energies.copy(), mo.irreps)
             assert nb_new == nb_old + 1
+            h3.one_rdms = {}  # the stored density matrices belong to the original basis
             out.append(("fchk:generalized-contraction", h3))
+            # a generalized contraction mixing kinds (Cartesian p with pure d), as in SPD shells of a 5D basis
+            h5 = copy.deepcopy(h)
+            shells5 = list(h5.obasis.shells)
+            g5 = Shell(shells5[-1].icenter, np.array([1, 2]), ["c", "p"], np.array([1.5, 0.4]),
+                       np.array([[0.7, 0.3], [0.4, 0.8]]))
+            h5.obasis = MolecularBasis([*shells5, g5], h5.obasis.conventions, h5.obasis.primitive_normalization)
+            c5 = np.vstack([mo.coeffs, 0.01 * np.arange(1, 8 * mo.coeffs.shape[1] + 1).reshape(8, -1)])
+            h5.mo = MolecularOrbitals(mo.kind, mo.norba, mo.norbb, mo.occs.copy(), c5, mo.energies.copy(), mo.irreps)
+            h5.one_rdms = {}
+            out.append(("fchk:generalized-contraction-mixed-kinds", h5))
             # the same wavefunction with the shells stored in reverse order (not grouped by centre)
             for src_name, tag in (("hf_sto3g.fchk", "hf"), ("water_sto3g_hf_g03.fchk", "water")):
                 w0 = load_one(str(d / src_name))
@@ -186,6 +197,10 @@ def _equiv(a, b):
     if a.obasis is not None:
         if a.obasis.nbasis != b.obasis.nbasis:
             return f"nbasis {a.obasis.nbasis} -> {b.obasis.nbasis}"
+        fa = [(int(s.icenter), int(l), k) for s in a.obasis.shells for l, k in zip(s.angmoms, s.kinds)]
+        fb = [(int(s.icenter), int(l), k) for s in b.obasis.shells for l, k in zip(s.angmoms, s.kinds)]
+        if fa != fb:
+            return f"contractions (center, angmom, kind) changed: {fa} -> {fb}"
         sa = compute_overlap(a.obasis, a.atcoords)
         sb = compute_overlap(b.obasis, b.atcoords)
         if not np.allclose(sa, sb, atol=1e-10, rtol=0):
@@ -242,12 +257,12 @@ def _one_case(ctx, tmp, label, obj, fmt, ac, mode):
                     dump_many([o, o], path, fmt=fmt, allow_changes=ac)
                 else:
                     write_input(o, path, fmt=fmt)
-                if rep == 0:
-                    wlist = list(wl)
         except (PrepareDumpError, DumpError, WriteInputError, FileFormatError) as exc:
             outcome = type(exc).__name__
         except Exception as exc:
             outcome = "Other:" + type(exc).__name__
+        if rep == 0:
+            wlist = list(wl)  # also when the call raised: warnings issued before the failure count
         after, ida = snap(o), ids(o)
         if after != before:
             where = first_diff(before, after)
@@ -262,6 +277,12 @@ def _one_case(ctx, tmp, label, obj, fmt, ac, mode):
     ctx.count(f"dump-{mode}", [label, fmt, ac], f"{fmt}/{outcome}/ac={int(ac)}",
               nontrivial=outcome in ("ok", "DumpError") or "prepar" not in outcome.lower(),
               sample={"object": label, "fmt": fmt, "allow_changes": ac, "outcome": outcome})
+    if mode == "one" and outcome in ("DumpError",) or (mode == "one" and outcome.startswith("Other")):
+        nw = sum(1 for w in wlist if issubclass(w.category, PrepareDumpWarning))
+        if nw > 0:
+            return (f"conversion-then-write-failure:{fmt}",
+                    f"dump_one to {fmt} announced a conversion (PrepareDumpWarning) and then failed with {outcome}: the "
+                    "converted object is not one the writer can write, so it is not the object that was given")
     if mode == "one" and outcome == "ok" and fmt in ("wfn", "wfx", "molden", "molekel") and o.mo is not None \
             and o.mo.kind != "generalized" and o.mo.occs is not None:
         # the written file must carry the alpha/beta occupations of the object it was given (as is or converted)
